@@ -112,7 +112,7 @@ func genC13(c *Cfg, emit func([]string)) {
 		nHist, maxSteps = 10000, 40
 	}
 	users := []string{"u0", "u1", "u2"}
-	tokens := []string{"USD", "EUR"}
+	tokens := []string{"USD", "EUR", "BA_02"} // an allowed token id with a group suffix too
 	pick := func(xs ...string) string { return xs[c.Rng.Intn(len(xs))] }
 	for i := 0; i < nHist; i++ {
 		h := []string{"reset"}
@@ -141,9 +141,9 @@ func genC13(c *Cfg, emit func([]string)) {
 			case r < 3 || len(locks) == 0:
 				id := fmt.Sprintf("L%d", c.Rng.Intn(14))
 				u, tk := pick(users...), pick(tokens...)
-				amt := pick("1", "5", "7", "20", "50", "50", "100", "100", "101", "1000", "1001", "0", "-1", "340282366920938463463374607431768211456")
+				amt := pick("1", "5", "7", "20", "50", "50", "100", "100", "101", "1000", "1001", "0", "-1", "340282366920938463463374607431768211456", "050", "+20", "0007")
 				h = append(h, fmt.Sprintf("lock %s %s %s %s %s %s", kind, signer, id, u, tk, amt))
-				if a, err := strconv.Atoi(amt); err == nil && a > 0 {
+				if a, err := strconv.Atoi(strings.TrimPrefix(amt, "+")); err == nil && a > 0 {
 					locks = append(locks, lk{kind, id, u, tk, a})
 				}
 			default:
@@ -161,6 +161,12 @@ func genC13(c *Cfg, emit func([]string)) {
 				default:
 					amt = pick("1", "2", "3", "5", "10")
 				}
+				if c.Rng.Intn(6) == 0 {
+					// the same number spelled differently: what counts is the amount, not its text
+					if v, err := strconv.Atoi(amt); err == nil && v >= 0 {
+						amt = pick("0", "00", "+") + amt
+					}
+				}
 				u := l.user
 				if c.Rng.Intn(12) == 0 {
 					u = pick(users...) // a request naming another address (outside the property's hypothesis; mirrored)
@@ -170,7 +176,7 @@ func genC13(c *Cfg, emit func([]string)) {
 					id = "nope"
 				}
 				h = append(h, fmt.Sprintf("unlock %s %s %s %s %s %s", l.kind, signer, id, u, l.token, amt))
-				if a, err := strconv.Atoi(amt); err == nil && a > 0 && a <= l.cur && signer == "admin" && u == l.user && id == l.id {
+				if a, err := strconv.Atoi(strings.TrimPrefix(amt, "+")); err == nil && a > 0 && a <= l.cur && signer == "admin" && u == l.user && id == l.id {
 					l.cur -= a
 				}
 				h = append(h, "get "+l.kind+" "+l.id)
@@ -189,6 +195,6 @@ func genC13(c *Cfg, emit func([]string)) {
 		}
 		emit(h)
 	}
-	c.Rule = fmt.Sprintf("%d random histories of 4..%d lock / partial unlock / full unlock / over-unlock / duplicate-id / unknown-id / zero and negative amount requests by admin and non-admin signers over 3 addresses x 2 tokens x both balance kinds, unlock amounts around the remaining amount (cur-1, cur, cur+1); lock records and spendable/locked balances of both kinds read back after the steps and for all accounts at the end; non-trivial = contains a lock or unlock; distinct = sha256", nHist, maxSteps+3)
+	c.Rule = fmt.Sprintf("%d random histories of 4..%d lock / partial unlock / full unlock / over-unlock / duplicate-id / unknown-id / zero and negative amount requests by admin and non-admin signers over 3 addresses x 3 tokens (one with a group suffix) x both balance kinds, amounts also spelled with leading zeros or a plus sign, unlock amounts around the remaining amount (cur-1, cur, cur+1); lock records and spendable/locked balances of both kinds read back after the steps and for all accounts at the end; non-trivial = contains a lock or unlock; distinct = sha256", nHist, maxSteps+3)
 	c.Extra = map[string]any{"histories": nHist}
 }
